@@ -113,6 +113,7 @@ func observe(t fataler, src string, ast *js.AST) ([]string, map[string]int, stri
 	return seq, uses, out
 }
 
+var shortDefaultRe = regexp.MustCompile(`\b[a-fz]: [a-fz] = `)
 var poolRe = regexp.MustCompile(`^[a-fz]$`) // the name pool and the name that is bound nowhere
 
 func checkProgram(t fataler, prog []node) (*resolver, string) {
@@ -193,6 +194,17 @@ func checkProgram(t fataler, prog []node) (*resolver, string) {
 	if strings.Join(kept, ",") != strings.Join(short, ",") {
 		t.Fatalf("program:\n%s\nrenamed:\n%s\nthe names that are not renamed are %v; the keys of the shorthand properties, which must stay, are %v", src, out, kept, short)
 	}
+	// a shorthand property with a default value, {a = 1}, is printed with its key once the variable has another name,
+	// {a: D0 = 1}; with the name put back that reads {a: a = 1}, which is the same property written in full (keys of the
+	// name pool only come from shorthand properties, the generator's own keys are p and q)
+	backText := shortDefaultRe.ReplaceAllStringFunc(back.String(), func(m string) string {
+		if m[0] == m[3] {
+			return m[3:]
+		}
+		return m
+	})
+	back.Reset()
+	back.WriteString(backText)
 	ast2, err := js.Parse(parse.NewInputString(back.String()), js.Options{})
 	if err != nil {
 		t.Fatalf("program:\n%s\nrenamed:\n%s\nwith the original names put back it is rejected:\n%s\n%v", src, out, back.String(), err)
@@ -214,6 +226,17 @@ func TestProp_Scoping(t *testing.T) {
 		prog := g.stmtList(rapid.IntRange(1, 5).Draw(t, "nstmts"), true)
 		if len(prog) == 0 {
 			prog = []node{&exprStmt{e: g.ref()}}
+		}
+		if rapid.IntRange(0, 3).Draw(t, "failedparse") == 0 {
+			// an earlier call that failed in the middle of a construct leaves nothing behind: a proper prefix of this
+			// program or an open arrow-function look-alike is parsed (and rejected) first
+			bad := rapid.SampledFrom([]string{"({a}", "([a, b]", "(a = 1", "(a = )", "x = {a, b", "function f(a = b", "class A { m(a", "for (let a of", "`${a", "async (a, b", "try{}catch(a", "x = a => {"}).Draw(t, "poison")
+			if rapid.Bool().Draw(t, "prefix") {
+				whole := source(prog)
+				bad = whole[:rapid.IntRange(0, len(whole)).Draw(t, "cut")]
+			}
+			js.Parse(parse.NewInputString(bad), js.Options{})
+			g.classes["after-failed-parse"]++
 		}
 		r, src := checkProgram(t, prog)
 		for k, n := range g.excluded {
